@@ -123,6 +123,9 @@ pub struct Case {
     pub dinit: bool,
     /// the transport accepts at most this many bytes per write() call (0 = everything): short writes
     pub wcap: usize,
+    /// from this many bytes of output on, the transport's write() accepts nothing and returns Ok(0) (a full sink);
+    /// 0 = never
+    pub wzero: usize,
     // tls mode only
     pub clientcert: bool,
     /// minimum ClientHello size (0 = rustls default hello)
@@ -442,6 +445,7 @@ pub fn parse_case(lines: &[&str], tls_mode: bool) -> Result<Case, (usize, String
         tls: false,
         dinit: false,
         wcap: 0,
+        wzero: 0,
         clientcert: false,
         bighello: 0,
         pre: Vec::new(),
@@ -533,6 +537,9 @@ pub fn parse_case(lines: &[&str], tls_mode: bool) -> Result<Case, (usize, String
                                 return Err(e("bighello must be <= 65000".into()));
                             }
                             c.bighello = n;
+                        }
+                        "wzero" => {
+                            c.wzero = v.parse().map_err(|_| e("wzero must be a number".into()))?;
                         }
                         "wcap" => {
                             c.wcap = v.parse().map_err(|_| e("wcap must be a number".into()))?;
@@ -635,6 +642,8 @@ pub struct CaseState {
     pub fault: Option<Fault>,
     pub opno: u64,
     pub wcap: usize,
+    pub wzero: usize,
+    pub written: usize,
     pub aux: Vec<Aux>,
     /// `tls_client_certs.map(len)` as seen by the last `after_authentication` call
     pub certs: Option<Option<usize>>,
@@ -782,8 +791,17 @@ impl Write for Transport {
                     let _ = writeln!(cs.log, "|werr|{}", k);
                     Err(injected(k))
                 }
+                None if cs.wzero > 0 && cs.written + 1 >= cs.wzero && !buf.is_empty() => {
+                    // the sink is full: nothing is accepted any more (std's write_all turns this into WriteZero)
+                    cs.log.push_str("|wzero\n");
+                    Ok(0)
+                }
                 None => {
-                    let n = if cs.wcap > 0 { buf.len().min(cs.wcap) } else { buf.len() };
+                    let mut n = if cs.wcap > 0 { buf.len().min(cs.wcap) } else { buf.len() };
+                    if cs.wzero > 0 {
+                        n = n.min(cs.wzero - 1 - cs.written);
+                    }
+                    cs.written += n;
                     cs.log.push_str("|w|");
                     push_hex(&mut cs.log, &buf[..n]);
                     cs.log.push('\n');
@@ -1377,6 +1395,8 @@ pub fn run_case(case: Case) -> (String, Vec<Aux>) {
             fault: Some(case.fault),
             opno: 0,
             wcap: case.wcap,
+            wzero: case.wzero,
+            written: 0,
             aux: parse_aux,
             certs: None,
         };
